@@ -27,9 +27,9 @@ META = {
     'required_counters': ['judged_graphviz', 'judged_with_recording_callbacks',
                           'judged_with_default_callbacks', 'one_concept_lattices',
                           'two_concept_lattices', 'nodes_with_several_labels', 'hostile_label_tables',
-                          'edges_checked', 'label_texts_checked'],
+                          'edges_checked', 'label_texts_checked', 'judged_with_one_recording_callback'],
     'shards': {'quick': 16, 'thorough': 16},
-    'exhaustive': {'quick': 'all 682 boolean tables <= 3x3', 'thorough': 'all boolean tables <= 3x3, 3x4, 4x3'},
+    'exhaustive': {'quick': 'all 682 boolean tables <= 3x3', 'thorough': 'all boolean tables <= 3x3, 3x4, 4x3, 4x4'},
     'assumptions': ['labels containing a backslash or shaped like <...> are out of scope '
                     '(escString / HTML-label semantics of the graphviz package)',
                     'the DOT text is read from Digraph.body'],
@@ -150,9 +150,13 @@ class GraphvizMonitor(Monitor):
         sl, sh = view.sl, view.sh
         ocb = kwargs.get('make_object_label', args[5] if len(args) > 5 else None)
         pcb = kwargs.get('make_property_label', args[6] if len(args) > 6 else None)
-        recording = isinstance(ocb, Recorder) and isinstance(pcb, Recorder)
-        if not recording and (ocb is not None or pcb is not None):
-            COL.count('custom_callbacks_structure_only')
+        for cb in (ocb, pcb):
+            if cb is not None and not isinstance(cb, Recorder):
+                COL.count('out_of_scope_foreign_callbacks')
+                return
+        recording = isinstance(ocb, Recorder) or isinstance(pcb, Recorder)
+        if isinstance(ocb, Recorder) != isinstance(pcb, Recorder):
+            COL.count('judged_with_one_recording_callback')
         COL.count('judged_with_recording_callbacks' if recording else 'judged_with_default_callbacks')
         try:
             body = list(result.body)
@@ -214,7 +218,7 @@ class GraphvizMonitor(Monitor):
                     continue
                 labelled = True
                 text = unquote(store[name])
-                if recording:
+                if isinstance(cb, Recorder):
                     COL.count('label_texts_checked')
                     given = cb.calls.get(text)
                     if given is None:
@@ -231,7 +235,7 @@ class GraphvizMonitor(Monitor):
                     if text != ' '.join(want):
                         COL.violation('graphviz', f'graphviz:{key}-default-text-differs', ' '.join(want), text,
                                       {'node': name})
-        if recording:
+        if isinstance(ocb, Recorder) and isinstance(pcb, Recorder):
             used = set(unquote(v) for v in head.values()) | set(unquote(v) for v in tail.values())
             extra = (set(ocb.calls) | set(pcb.calls)) - used
             if extra:
@@ -290,5 +294,10 @@ def run_case(concepts, case, spec):
         COL.count('two_concept_lattices')
     g = call(lat.graphviz)
     call(lat.graphviz, make_object_label=Recorder('O'), make_property_label=Recorder('P'))
+    # only one callback customised (the other keeps its default), and a second export of the
+    # same lattice object with other callbacks
+    call(lat.graphviz, make_object_label=Recorder('Q'))
+    call(lat.graphviz, make_property_label=Recorder('R'))
+    call(lat.graphviz)
     if g is not RAISED:
         COL.sample({'table': case, 'dot_body_head': [l.strip() for l in list(g.body)[:8]]})
